@@ -245,6 +245,19 @@ func c11Handler(c *Ctx) {
 			if (cd.Op == token.EQL || cd.Op == token.NEQ) && strings.HasSuffix(p, ".ParticipantId") && strings.HasSuffix(ssax.Path(cd.Y), ".ParticipantID") {
 				continue
 			}
+			// a condition whose other branch ends the handler (rejects the operation) does not skip anything: only a branch
+			// that goes on to the next entry without decrypting this one does
+			skips := false
+			for si := 0; si < 2; si++ {
+				first := cd.If.Block().Succs[si].Instrs[0]
+				if first != ssa.Instruction(dec) && !ssax.ReachableFrom(fn, first, dec.(ssa.Instruction), nil, []ssa.Instruction{iter}) &&
+					(first == iter || ssax.ReachableFrom(fn, first, iter, nil, []ssa.Instruction{dec.(ssa.Instruction)})) {
+					skips = true
+				}
+			}
+			if !skips {
+				continue
+			}
 			extra = append(extra, p+" at "+c.PosOf(cd.If))
 		}
 	}
